@@ -103,6 +103,7 @@ _main_tid = None
 _main_ident = None
 _armed = threading.Event()
 _fired = threading.Event()
+_gen = [0]                        # one generation per guarded operation
 
 
 class _TimeProxy(object):
@@ -149,7 +150,8 @@ def _watch(fd_stat, fd_sys):
     while a case runs (it would disturb the /proc/self/fd observations)."""
     while True:
         _armed.wait()
-        while _armed.is_set() and not _fired.is_set():
+        gen = _gen[0]
+        while _armed.is_set() and not _fired.is_set() and _gen[0] == gen:
             try:
                 s = os.pread(fd_stat, 1024, 0).decode()
                 if s[s.rindex(')') + 2] == 'S':
@@ -162,7 +164,7 @@ def _watch(fd_stat, fd_sys):
             except (OSError, ValueError, IndexError):
                 pass
             _time.sleep(0.0003)
-        while _armed.is_set():
+        while _armed.is_set() and _gen[0] == gen:       # fired: wait for this operation to end
             _time.sleep(0.0003)
 
 
@@ -191,6 +193,8 @@ class guard(object):
     """arm the block watcher around one operation"""
 
     def __enter__(self):
+        _armed.clear()
+        _gen[0] += 1
         _fired.clear()
         _armed.set()
 
@@ -400,7 +404,6 @@ class Case(object):
         finally:
             _current = None
         self.release()
-        gc.collect()
         self.events.append({'e': 'end', 'dfds': nfds() - self.base_fds,
                             'zomb': zombie_children() - self.base_zombies,
                             'proc': proc_state(self.pid, os.getpid()) if self.pid > 0 else 'reaped'})
@@ -517,8 +520,8 @@ class ChildCase(Case):
             os.write(self.cmd, b'x%d\n' % value)
             self._dies(0)
         elif action == 'selfkill':
-            if self.k_state != 'run':
-                raise HarnessError('kill command for a child that cannot read it')
+            if self.k_state != 'run' or (self.disp == 'ignore' and value in (1, 2)):
+                raise HarnessError('kill command for a child that cannot read it / ignores the signal')
             os.write(self.cmd, b'k%d\n' % value)
             self._dies(value)
         elif action == 'sig':
@@ -746,6 +749,5 @@ class FdCase(Case):
                 pass
         self.keep = []
         self.release()
-        gc.collect()
         self.events.append({'e': 'end', 'dfds': nfds() - self.base_fds, 'zomb': 0, 'proc': 'run'})
         return self.events
